@@ -5,6 +5,7 @@ import (
 	"go/ast"
 	"go/token"
 	"sort"
+	"strconv"
 	"strings"
 
 	"golang.org/x/tools/go/ssa"
@@ -356,105 +357,7 @@ func c13Placeholders(c *Ctx, te *taintEngine) {
 		return
 	}
 	key := FuncKey(parser)
-	var findAll *ssa.Call
-	var pctReplace, varReplace *ssa.Call
-	for _, b := range parser.Blocks {
-		for _, ins := range b.Instrs {
-			call, ok := ins.(*ssa.Call)
-			if !ok {
-				continue
-			}
-			switch funcFullName(ssaCalleeObj(call)) {
-			case "(*regexp.Regexp).FindAllStringSubmatch":
-				findAll = call
-			case "strings.ReplaceAll":
-				from, _ := constStringOf(call.Call.Args[1])
-				to, _ := constStringOf(call.Call.Args[2])
-				if from == "%" && to == "%%" {
-					pctReplace = call
-				} else if to == "%v" {
-					varReplace = call
-				}
-			}
-		}
-	}
-	if findAll == nil || varReplace == nil {
-		r.Unknown("C13.Q3", key+"#shape", p.Pos(parser.Pos()), "the placeholder loop (FindAllStringSubmatch + ReplaceAll(..., \"%v\")) was not recognised")
-		return
-	}
-	// % doubling: present, and control-dependent exactly on len(matches) > 0
-	okPct, why := false, "literal percent signs are not doubled: a % in a message with placeholders is interpreted by sprintf"
-	if pctReplace != nil {
-		why = "the doubling of % is not conditional on exactly `len(placeholders found) > 0`: the message is used as a sprintf format if and only if it has variables, so % must be doubled in exactly that case"
-		blk := pctReplace.Block()
-		if len(blk.Preds) == 1 {
-			pred := blk.Preds[0]
-			if iff, ok := pred.Instrs[len(pred.Instrs)-1].(*ssa.If); ok && pred.Succs[0] == blk {
-				if bo, ok := iff.Cond.(*ssa.BinOp); ok && (bo.Op == token.GTR || bo.Op == token.NEQ) {
-					if lc, ok := bo.X.(*ssa.Call); ok {
-						if bi, ok := lc.Call.Value.(*ssa.Builtin); ok && bi.Name() == "len" && lc.Call.Args[0] == ssa.Value(findAll) {
-							if k, ok := bo.Y.(*ssa.Const); ok && k.Value != nil && k.Int64() == 0 {
-								okPct = true
-							}
-						}
-					}
-				}
-			}
-		}
-		// and it happens before the placeholders are replaced (its block dominates the loop)
-		if okPct && !blk.Dominates(varReplace.Block()) && !pctReplace.Block().Preds[0].Dominates(varReplace.Block()) {
-			okPct = false
-			why = "% is doubled after the placeholders were replaced: the inserted %v would be doubled too"
-		}
-	}
-	r.Check(okPct, "C13.Q3", key+"#percent", p.Pos(parser.Pos()), "% is doubled exactly when placeholders were found, before they are replaced", why)
-	// every occurrence of a placeholder yields one %v and one recorded variable: the loop over the matches has no skip
-	if pfd, _ := parser.Syntax().(*ast.FuncDecl); pfd != nil && pfd.Body != nil {
-		var loop *ast.RangeStmt
-		ast.Inspect(pfd.Body, func(n ast.Node) bool {
-			if rs, ok := n.(*ast.RangeStmt); ok && loop == nil {
-				loop = rs
-			}
-			return true
-		})
-		if loop == nil {
-			r.Unknown("C13.Q3", key+"#every-occurrence", p.Pos(parser.Pos()), "no loop over the placeholder matches found")
-		} else {
-			var skips []string
-			appends := 0
-			for _, st := range loop.Body.List {
-				switch x := st.(type) {
-				case *ast.IfStmt, *ast.SwitchStmt, *ast.BranchStmt:
-					skips = append(skips, fmt.Sprintf("%T", x))
-				case *ast.AssignStmt:
-					for _, rhs := range x.Rhs {
-						if call, ok := rhs.(*ast.CallExpr); ok {
-							if id, ok := call.Fun.(*ast.Ident); ok && id.Name == "append" {
-								appends++
-							}
-						}
-					}
-				}
-			}
-			ast.Inspect(loop.Body, func(n ast.Node) bool {
-				if bs, ok := n.(*ast.BranchStmt); ok {
-					skips = append(skips, bs.Tok.String())
-				}
-				return true
-			})
-			r.Check(len(skips) == 0 && appends >= 1, "C13.Q3", key+"#every-occurrence", p.Pos(loop.Pos()), "every match is replaced by %v and recorded as a variable, unconditionally", "the loop over the placeholder matches skips or filters some of them ("+strings.Join(skips, ", ")+"): the text replacement puts one %v per occurrence, so a placeholder that is recorded only once leaves later verbs without their argument (shifted values, %!v(MISSING))")
-		}
-	}
-	// the replaced text is the whole match (v[0]) and the recorded variable the capture (v[1])
-	okIdx := false
-	if ix, ok := stripIface(varReplace.Call.Args[1]).(*ssa.UnOp); ok {
-		if ia, ok := ix.X.(*ssa.IndexAddr); ok {
-			if k, ok := ia.Index.(*ssa.Const); ok && k.Value != nil && k.Int64() == 0 {
-				okIdx = true
-			}
-		}
-	}
-	r.Check(okIdx, "C13.Q3", key+"#replace-whole-match", p.Pos(varReplace.Pos()), "each whole {{…}} match is replaced by one %v", "the text replaced by %v is not the whole placeholder match")
+	c13MessageParserShape(c, parser, key)
 	// generator side: sprintf iff len(vars) > 0
 	var wrap *ssa.Function
 	for _, fn := range te.funcs {
@@ -551,4 +454,138 @@ func c13Placeholders(c *Ctx, te *taintEngine) {
 	if !found {
 		r.Unknown("C13.Q3", FuncKey(wrap)+"#one-binding-per-variable", p.Pos(fd.Pos()), "no loop over Message.Variables in the function that formats messages")
 	}
+}
+
+// c13MessageParserShape (Q3, parser side), decided on the value the message parser returns (E-sym), however its loops
+// and tests are written.  With M the list of placeholder matches (FindAllStringSubmatch on the raw text):
+//   - Variables is [for every match m of M: m[1]] — every occurrence recorded, in order, unconditionally;
+//   - when M is not empty, Expression is the raw text with % doubled first and then, for every match m of M, m[0]
+//     replaced by %v (a fold over M whose step is ReplaceAll(acc, m[0], "%v"));
+//   - when M is empty, Expression is the raw text unchanged (it is not used as a format then).
+func c13MessageParserShape(c *Ctx, parser *ssa.Function, key string) {
+	r, p := c.R, c.P
+	fd, _ := parser.Syntax().(*ast.FuncDecl)
+	pk := p.Pkg("internal/parser/profile")
+	if fd == nil || fd.Body == nil || pk == nil {
+		r.Unknown("C13.Q3", key+"#shape", p.Pos(parser.Pos()), "no syntax for the message parser")
+		return
+	}
+	raw := firstParamObj(pk.TypesInfo, fd)
+	type ret struct {
+		conds []symCond
+		val   *Sym
+	}
+	var rets []ret
+	proto := &symWalker{Inline: samePkgInline(pk)}
+	proto.OnReturn = func(w *symWalker, rs *ast.ReturnStmt, results []*Sym) {
+		if w.depth == 0 && len(results) == 1 {
+			rets = append(rets, ret{w.Conds(), results[0]})
+		}
+	}
+	p.SymWalk(pk, fd, proto, nil)
+	if len(rets) == 0 || raw == nil {
+		r.Unknown("C13.Q3", key+"#shape", p.Pos(parser.Pos()), "the value returned by the message parser could not be evaluated")
+		return
+	}
+	isRaw := func(s *Sym) bool { return s != nil && s.K == symVar && s.Obj == raw }
+	// M: the matches
+	var M *Sym
+	for _, rt := range rets {
+		rt.val.Walk(func(q *Sym) {
+			if M == nil && q.K == symCall && strings.HasSuffix(q.Fn, ".FindAllStringSubmatch") && len(q.Parts) == 2 && isRaw(q.Parts[0]) {
+				M = q
+			}
+		})
+	}
+	if M == nil {
+		r.Unknown("C13.Q3", key+"#shape", p.Pos(parser.Pos()), "the list of placeholder matches (FindAllStringSubmatch on the message text) does not appear in the returned value: "+shortFormat(rets[0].val.String()))
+		return
+	}
+	ms := M.String()
+	group := func(s *Sym, k int64) bool {
+		// M[*][k]
+		if s == nil || s.K != symIndex || s.X == nil || s.X.K != symElem || s.X.X == nil || s.X.X.String() != ms {
+			return false
+		}
+		i, ok := s.Y.ConstInt()
+		return ok && i == k
+	}
+	replaceAll := func(s *Sym) ([]*Sym, bool) {
+		if s != nil && s.K == symCall && s.Fn == "strings.ReplaceAll" && len(s.Parts) == 3 {
+			return s.Parts, true
+		}
+		return nil, false
+	}
+	var pctWhy, occWhy, wholeWhy []string
+	worlds := 0
+	for _, rt := range rets {
+		for _, empty := range []bool{false, true} {
+			// is this return possible in this world?
+			feasible := true
+			for _, cd := range rt.conds {
+				if x, ok, isEmpty := cd.Emptiness(); ok && x != nil && x.String() == ms && isEmpty != empty {
+					feasible = false
+				}
+			}
+			if !feasible {
+				continue
+			}
+			worlds++
+			v := rt.val.ResolveEmptiness(ms, empty)
+			expr, okE := v.FieldDeep("Expression")
+			vars, okV := v.FieldDeep("Variables")
+			if !okE || !okV {
+				occWhy = append(occWhy, "the returned value has no Expression / Variables: "+shortFormat(v.String()))
+				continue
+			}
+			if empty {
+				// no placeholders: the text is not a format; it must come back unchanged
+				e := expr
+				if e.K == symCall && e.Fn == "fold" && len(e.Parts) == 2 && e.X != nil && e.X.String() == ms {
+					e = e.Parts[0] // a fold over no matches is its initial value
+				}
+				if !isRaw(e) {
+					pctWhy = append(pctWhy, "without placeholders the text is not returned as written ("+shortFormat(e.String())+"): it is not used as a sprintf format then, so a doubled % would be printed twice")
+				}
+				continue
+			}
+			// Variables
+			okVars := vars.K == symList && len(vars.Parts) == 1 && vars.Parts[0].K == symRepeat && vars.Parts[0].X != nil && vars.Parts[0].X.String() == ms && len(vars.Parts[0].Parts) == 1 && group(vars.Parts[0].Parts[0], 1)
+			if !okVars {
+				occWhy = append(occWhy, "the recorded variables are "+shortFormat(vars.String())+", not `the capture of every match, in order`: the text replacement puts one %v per occurrence, so a placeholder that is skipped, filtered or recorded once leaves later verbs without their argument (shifted values, %!v(MISSING))")
+			}
+			// Expression
+			if expr.K != symCall || expr.Fn != "fold" || len(expr.Parts) != 2 || expr.X == nil || expr.X.String() != ms {
+				occWhy = append(occWhy, "the format text is "+shortFormat(expr.String())+", not the result of replacing every match in turn")
+				continue
+			}
+			init, step := expr.Parts[0], expr.Parts[1]
+			if sp, ok := replaceAll(step); !ok || sp[0].K != symAcc {
+				occWhy = append(occWhy, "one iteration turns the text into "+shortFormat(step.String())+", not into `the text so far with this match replaced`")
+			} else {
+				if to, ok := sp[2].ConstString(); !ok || to != "%v" {
+					wholeWhy = append(wholeWhy, "a match is replaced by "+shortFormat(sp[2].String())+", not by %v")
+				}
+				if !group(sp[1], 0) {
+					wholeWhy = append(wholeWhy, "the text replaced by %v is "+shortFormat(sp[1].String())+", not the whole placeholder match")
+				}
+			}
+			if ip, ok := replaceAll(init); ok && isRaw(ip[0]) {
+				from, _ := ip[1].ConstString()
+				to, _ := ip[2].ConstString()
+				if from != "%" || to != "%%" {
+					pctWhy = append(pctWhy, "before the placeholders are replaced the text is rewritten "+strconv.Quote(from)+" -> "+strconv.Quote(to)+", not % -> %%")
+				}
+			} else {
+				pctWhy = append(pctWhy, "with placeholders the replacement starts from "+shortFormat(init.String())+", not from the text with every % doubled: a literal % in the message is interpreted by sprintf (or the inserted %v is doubled, when the doubling happens afterwards)")
+			}
+		}
+	}
+	if worlds == 0 {
+		r.Unknown("C13.Q3", key+"#shape", p.Pos(parser.Pos()), "no return of the message parser could be related to the list of matches")
+		return
+	}
+	r.Check(len(pctWhy) == 0, "C13.Q3", key+"#percent", p.Pos(parser.Pos()), "% is doubled exactly when placeholders were found, before they are replaced", strings.Join(pctWhy, "; "))
+	r.Check(len(occWhy) == 0, "C13.Q3", key+"#every-occurrence", p.Pos(parser.Pos()), "every match is replaced by %v and recorded as a variable, unconditionally", strings.Join(occWhy, "; "))
+	r.Check(len(wholeWhy) == 0, "C13.Q3", key+"#replace-whole-match", p.Pos(parser.Pos()), "each whole {{…}} match is replaced by one %v", strings.Join(wholeWhy, "; "))
 }
